@@ -36,6 +36,7 @@ func (c05) Gen(rt *rapid.T, thorough bool) any {
 	s.Level = rapid.SampledFrom([]string{"", "", "DEBUG"}).Draw(rt, "level5")
 	s.StopTwice = rapid.IntRange(0, 3).Draw(rt, "stop_twice") == 0
 	s.SyncFail = rapid.IntRange(0, 4).Draw(rt, "sync_fail") == 0
+	s.WriteFail = rapid.IntRange(0, 4).Draw(rt, "write_fail5") == 0
 	s.Rejected = rapid.IntRange(0, 4).Draw(rt, "rejected") == 0
 	switch s.Kind {
 	case "AsyncLogger":
@@ -229,6 +230,11 @@ func (c c05) Run(x *Exec, scn any) {
 		o.violate("start-error", "C05/start-error/"+s.Kind, "starting a valid %s logger failed: %v", s.Kind, startErr)
 		return
 	}
+	if s.WriteFail && s.Kind != "Console" {
+		// the disk is full for two writes: those two lines may be missing, the descriptors are
+		// nevertheless all released at Stop and no others are opened behind the scenes
+		x.FS.AddFault(&simos.FaultRule{Op: "write", Prefix: "/logs", Err: syscall.ENOSPC, Skip: int(s.Knobs.MapSeed % 3), Count: 2})
+	}
 	subs := make([][]*Sub, len(s.Producers))
 	for p := range s.Producers {
 		x.Sim.Spawn(fmt.Sprintf("producer%d", p), func() {
@@ -310,10 +316,19 @@ func (c c05) Run(x *Exec, scn any) {
 		}
 		return
 	}
+	refused := map[string]bool{} // ids in lines the simulated OS refused to write
+	for buf := range x.FS.FailedWriteSet() {
+		for _, m := range idInLine.FindAllStringSubmatch(buf, -1) {
+			refused[m[1]] = true
+		}
+	}
 	missing := 0
 	first := ""
 	for _, ps := range subs {
 		for _, sb := range ps {
+			if refused[sb.ID] {
+				continue
+			}
 			if sb.Panic != nil {
 				o.violate("log-call-panic", "C05/log-call-panic/"+s.Kind+kindSuffix(s)+"/"+sb.PanicAt, "log call %s panicked: %v", sb.ID, sb.Panic)
 				continue
